@@ -90,6 +90,8 @@ class Adapter(EnvAdapter):
         # a single agent; five agents
         out.append(c("n8a1k3_t7", 8, 12, 4, 1, 3, 7, 10, 11, probe_cap=8))
         out.append(c("n30a5k3_t7", 30, 60, 5, 5, 3, 7, 6, 11, probe_every=2, probe_cap=60))
+        # more than 127 nodes
+        out.append(c("n140a4k5_t12", 140, 280, 5, 4, 5, 12, 3, 16, probe_every=4, probe_cap=40))
         return out
 
     def make(self, cfg):
